@@ -47,7 +47,7 @@ try:
         if not pkg:
             print("demo without 'copy to:'", d); continue
         tags = ["-tags", "verif"] if "verif" in src.split("package")[0] or "SimHook" in src else []
-        if re.search(r"(?i)run with:.*-race", src.split("package")[0]):
+        if re.search(r"(?i)run with:?[^\n]*-race", src.split("package")[0]):
             tags = tags + ["-race"]
         dst = os.path.join(wt, pkg, "zz_" + d)
         shutil.copyfile(os.path.join(out, d), dst)
